@@ -119,6 +119,8 @@ def run():
     nuni = len(cases)
     for i in range(1500 if QUICK else 25000):
         a = gen.random_abstract(rng, N=rng.randint(2, 8), K=rng.randint(1, 6), max_edges=14, nsites=0, nmuts=0)
+        if i % 3 == 2:       # node ids in no particular order (ids carry no meaning: parents with smaller ids than children, samples anywhere)
+            a = gen.permute_nodes(a, random.Random(SEED * 1000003 + i))
         cases.append(drive(a, rng))
     for n in ([65, 130] if QUICK else [63, 64, 65, 66, 127, 128, 129, 130, 200, 257]):
         cases.append(drive(wide_abstract(rng, n), rng))
